@@ -5,6 +5,7 @@ from datetime import date, datetime, time, timedelta
 from decimal import Decimal
 from typing import Dict, List, Optional, Tuple, Union
 
+from utype import Field as utype_Field
 from utype import Options, Rule, Schema
 from utype.utils.transform import TypeTransformer, type_transform
 from vt.ob import ob
@@ -240,3 +241,78 @@ for _t in TARGETS:
               'converted under {}, {no_explicit_cast}, {no_data_loss}, {both}' % _t,
        out='tree not expected to close (solver-driven exploration, every path replayed); float -> int value clause is exact only '
            'for the picked float values; text parsing beyond the vocabularies')((lambda t: lambda V: _prefs(V, t))(_t))
+
+
+# ------------------------------------------------------------------ collections holding data-class instances
+@ob('prefs/DC-collections', marks=['plain-only'], budget=(40, 120),
+    bounds='target data class DC (x: int = 0, y: List[int] = None); source = list / tuple of 1..3 elements picked from {an instance, another '
+           'instance, a dict, a dict with an unknown key}: under no_data_loss a collection of more than one element never collapses to a '
+           'single instance, and the flags only restrict')
+def prefs_dc_collections(V):
+    n = V.pick('n', [1, 2, 3])
+    idx = [V.pick('i%d' % i, [0, 1, 2, 3]) for i in range(n)]
+    as_tuple = V.bool('as_tuple')
+
+    def run(**flags):
+        # (a data class parses with its own class options: the instances are instances of the class variant under test)
+        cls = DC_VARIANTS[tuple(sorted(flags))]
+        pool = [cls(x=1), cls(x=2, y=[1]), {'x': 3}, {'x': 4, 'zz': 1}]
+        items = [pool[i] for i in idx]
+        x = tuple(items) if as_tuple else items
+        try:
+            return x, ('ok', dict(type_transform(x, cls, Options(**flags))))
+        except Exception as e:  # noqa
+            return x, ('err', type(e).__name__)
+    x, plain = run()
+    _, cast = run(no_explicit_cast=True)
+    _, loss = run(no_data_loss=True)
+    _, both = run(no_explicit_cast=True, no_data_loss=True)
+    det = lambda: 'DC <- %r: default %r ; no_explicit_cast %r ; no_data_loss %r ; both %r' % (x, plain, cast, loss, both)
+    for label, r in (('no_explicit_cast', cast), ('no_data_loss', loss), ('both', both)):
+        if r[0] == 'ok':
+            V.check(plain[0] == 'ok' and same(r[1], plain[1]), 'restrict:different-value-with-' + label, det)
+    if loss[0] == 'ok':
+        V.check(len(x) <= 1, 'loss:collection-collapsed', det)
+    if cast[0] == 'ok':
+        V.check(False, 'cast:cross-group:object<-array', det)
+    V.cover('both' if both[0] == 'ok' else 'plain-only' if plain[0] == 'ok' else 'reject')
+
+
+# ------------------------------------------------------------------ unknown keys beside aliased fields
+class DA(Schema):
+    name: str = ''
+    user_id: int = utype_Field(alias='uid', alias_from=['user', 'u'], default=0)
+
+
+class DA_loss(DA):
+    __options__ = Options(no_data_loss=True)
+
+
+DA_KEYS = ['name', 'uid', 'user_id', 'user', 'role', 'zz']
+
+
+@ob('prefs/DC-unknown-keys', marks=['both', 'plain-only'], budget=(40, 120),
+    bounds='data class with an aliased field (alias + two alias_from spellings) with and without no_data_loss; input = solver-chosen subset '
+           'of %r with int / str values: under no_data_loss an input holding an unknown key (role, zz) is rejected, whatever else it '
+           'holds; an input accepted under no_data_loss is accepted without it with the same fields' % DA_KEYS)
+def prefs_dc_unknown_keys(V):
+    data = {}
+    for k in DA_KEYS:
+        if V.bool('has_' + k):
+            data[k] = 'n' if k == 'name' else 3
+    spellings = [k for k in ('uid', 'user_id', 'user') if k in data]
+    if len(spellings) > 1:
+        return          # several spellings of one field: alias conflicts are C06's subject
+    try:
+        plain = ('ok', dict(DA(**data)))
+    except Exception as e:  # noqa
+        plain = ('err', type(e).__name__)
+    try:
+        loss = ('ok', dict(DA_loss(**data)))
+    except Exception as e:  # noqa
+        loss = ('err', type(e).__name__)
+    det = lambda: 'DA(**%r): default %r ; no_data_loss %r' % (data, plain, loss)
+    if loss[0] == 'ok':
+        V.check('role' not in data and 'zz' not in data, 'loss:unknown-key-accepted', det)
+        V.check(plain[0] == 'ok' and plain[1] == loss[1], 'restrict:different-value-with-no_data_loss', det)
+    V.cover('both' if loss[0] == 'ok' else 'plain-only' if plain[0] == 'ok' else 'reject')
